@@ -97,6 +97,10 @@ class LinearInterpolationStrategy(InterpolationStrategy):
                  start: Tuple[float, float],
                  end: Tuple[float, float],
                  times: np.ndarray) -> np.ndarray:
+        if end[0] == start[0]:
+            # A segment of zero length is a discontinuity and has no slope. All valid times are equal to end[0] and get
+            # the value of the later point like they do where two segments of a table meet.
+            return np.full_like(times, fill_value=end[1], dtype=float)
         m = (end[1] - start[1])/(end[0] - start[0])
         return m * (times - start[0]) + start[1]
 
